@@ -133,6 +133,7 @@ struct Env {
     filters: Vec<Option<Vec<u32>>>,
     cfgs: Vec<(Vec<String>, Cfg)>,
     quiet: Cfg,
+    wide: bool,
 }
 
 impl Env {
@@ -147,7 +148,71 @@ impl Env {
                 (o, c)
             })
             .collect();
-        Env { syms: alphabet(), filters, cfgs, quiet: Cfg::new(&[]) }
+        Env { syms: alphabet(), filters, cfgs, quiet: Cfg::new(&[]), wide: false }
+    }
+}
+
+fn leak(s: String) -> &'static str {
+    Box::leak(s.into_boxed_str())
+}
+
+/// the wide alphabet: one frame for EVERY five-bit format value 0..31 (address A under both the address/parity
+/// and the AA reading, so it is an accepted frame with non-zero address whatever the format), and accepted
+/// frames in the decorated line forms of C02 (12-digit time stamp with and without '@', '*...;', leading blank)
+fn wide_alphabet() -> Vec<Sym> {
+    let mut v = vec![];
+    for d in 0..32u32 {
+        let nbits = if d < 16 { 56 } else { 112 };
+        let mut f = Frame::zero(nbits);
+        f.set(1, 5, d as u64).set(9, 24, A as u64);
+        if nbits == 112 {
+            f.set(33, 56, 0x2004_1234_5678_9Au64);
+        }
+        match d {
+            11 | 17 | 18 => f.seal(0),
+            _ => f.seal(A),
+        };
+        v.push(Sym { name: leak(format!("DF{d}(A)")), line: f.hex().into_bytes(), df: Some(d) });
+    }
+    let df17 = frames::df17(5, B, frames::me_ident(4, 3, frames::callsign_codes("EIN45F"))).hex();
+    let df4 = frames::df4(B, frames::ac13_for_alt(9000)).hex();
+    let df21 = frames::df21(B, frames::id13_for_squawk(1000), 0).hex();
+    for (n, l, d) in [
+        ("ts+DF17(B)", format!("0123456789AB{df17}"), 17u32),
+        ("@ts+DF17(B);", format!("@0123456789AB{df17};"), 17),
+        ("*DF17(B);", format!("*{df17};"), 17),
+        (" @ts+DF4(B);", format!(" @A0123456789B{df4};"), 4),
+        ("ts+DF4(B)", format!("8D23456789AB{df4}"), 4),
+        ("*ts+DF21(B);", format!("*20AA456789AB{df21};"), 21),
+    ] {
+        v.push(Sym { name: n, line: l.into_bytes(), df: Some(d) });
+    }
+    v
+}
+
+fn wide_filters() -> Vec<Option<Vec<u32>>> {
+    let mut v: Vec<Option<Vec<u32>>> = vec![None];
+    for d in 0..32u32 {
+        v.push(Some(vec![d]));
+    }
+    v.push(Some(vec![31, 17]));
+    v.push(Some(vec![4, 25, 21]));
+    v
+}
+
+impl Env {
+    fn wide() -> Env {
+        let filters = wide_filters();
+        let cfgs = filters
+            .iter()
+            .map(|f| {
+                let o = opts_for(f, true, false);
+                let ov: Vec<&str> = o.iter().map(|s| s.as_str()).collect();
+                let c = Cfg::new(&ov);
+                (o, c)
+            })
+            .collect();
+        Env { syms: wide_alphabet(), filters, cfgs, quiet: Cfg::new(&[]), wide: true }
     }
 }
 
@@ -161,7 +226,7 @@ fn eval_seq(ctx: &mut Ctx, env: &Env, seq: &[usize], fi: usize, with_cli: bool) 
         Some(f) => f.iter().map(|d| d.to_string()).collect::<Vec<_>>().join(","),
     };
     let key = format!("[{}]/f={}", names.join(" "), flabel);
-    let case = || json!({"seq": seq, "filter": fi});
+    let case = || json!({"seq": seq, "filter": fi, "wide": env.wide});
     let (o, cfg) = &env.cfgs[fi];
     let ov: Vec<&str> = o.iter().map(|s| s.as_str()).collect();
     let table = new_table();
@@ -281,6 +346,29 @@ fn run(ctx: &mut Ctx) {
             }
         }
     }
+    // the wide alphabet (every format value 0..31, decorated line forms) x every one-format filter: all
+    // sequences of length 1 and 2
+    {
+        let wenv = Env::wide();
+        let wn = wenv.syms.len() as u64;
+        for l in 1..=2usize {
+            for idx in 0..wn.pow(l as u32) {
+                job += 1;
+                if !ctx.mine(job) {
+                    continue;
+                }
+                let seq = seq_of(idx, l, wn);
+                for fi in 0..wenv.filters.len() {
+                    // length 2: under the filters that concern one of the two lines, and no filter
+                    if l == 2 && fi != 0 && !wenv.filters[fi].as_ref().is_some_and(|f| seq.iter().any(|&s| wenv.syms[s].df.is_some_and(|d| f.contains(&d)))) && fi % 8 != 1 {
+                        continue;
+                    }
+                    ctx.count("wide-alphabet");
+                    eval_seq(ctx, &wenv, &seq, fi, false);
+                }
+            }
+        }
+    }
     // on a table whose rows are 30 s old: a line that is rejected or whose DF is not in the -f list
     // leaves the table bit-identical (in particular it does not restart the last-contact age)
     job += 1;
@@ -353,6 +441,7 @@ fn replay(ctx: &mut Ctx, case: &Value) {
         return;
     }
     let fi = case.get("filter").and_then(|x| x.as_u64()).unwrap_or(0) as usize;
+    let env = if case.get("wide").and_then(|x| x.as_bool()) == Some(true) { Env::wide() } else { env };
     for &s in &seq {
         crate::run::say(&format!("line {:<18} {}", env.syms[s].name, String::from_utf8_lossy(&env.syms[s].line)));
     }
